@@ -69,6 +69,12 @@ enum Cmd {
     Quit,
 }
 
+/// Seconds after which a blocked `next()` / `drop` is reported as `hang` (VERIF_HANG_SECS, default 20). The driver
+/// re-runs a plan that reported a hang with a much larger value before it believes the report.
+fn hang_secs() -> u64 {
+    std::env::var("VERIF_HANG_SECS").ok().and_then(|v| v.parse().ok()).unwrap_or(20)
+}
+
 fn main() {
     // keep worker panics from flooding stderr
     std::panic::set_hook(Box::new(|_| {}));
@@ -112,7 +118,7 @@ fn main() {
     let wait_done = |upto: usize, what: &str| -> bool {
         let (m, c) = &*done;
         let mut g = m.lock().unwrap();
-        let deadline = std::time::Instant::now() + Duration::from_secs(20);
+        let deadline = std::time::Instant::now() + Duration::from_secs(hang_secs());
         while *g < upto {
             let now = std::time::Instant::now();
             if now >= deadline {
@@ -132,7 +138,7 @@ fn main() {
             Some("finish") | Some("panic") => {
                 let x: i64 = p.next().unwrap().parse().unwrap();
                 // wait until the worker has really started item x (a task is started asynchronously)
-                let deadline = std::time::Instant::now() + Duration::from_secs(5);
+                let deadline = std::time::Instant::now() + Duration::from_secs(std::cmp::max(5, hang_secs() / 4));
                 loop {
                     let (m, _c) = &*SHARED;
                     let g = m.lock().unwrap_or_else(|e| e.into_inner());
@@ -148,7 +154,7 @@ fn main() {
                 g.gates.insert(x, if line.starts_with("panic") { Gate::Panic } else { Gate::Open });
                 c.notify_all();
                 drop(g);
-                let deadline = std::time::Instant::now() + Duration::from_secs(5);
+                let deadline = std::time::Instant::now() + Duration::from_secs(std::cmp::max(5, hang_secs() / 4));
                 loop {
                     let (m, _c) = &*SHARED;
                     let g = m.lock().unwrap_or_else(|e| e.into_inner());
